@@ -11,13 +11,13 @@ def install_sim_models(ip):
 _ASSIGNMENT = {}  # unit tag -> seed-child assignment observed on the first explored path (paths differ only in unspecified iteration orders)
 
 
-def sim_unit(shape, auto_update, skip):
-    tag = f"{shape}.auto_{'on' if auto_update else 'off'}" + (f".skip_{'_'.join(skip)}" if skip else "")
+def sim_unit(shape, auto_update, skip, copy=False):
+    tag = f"{shape}.auto_{'on' if auto_update else 'off'}" + (f".skip_{'_'.join(skip)}" if skip else "") + (".copy_true" if copy else "")
 
     @unit(f"C17.{tag}", "C17", [f"{M}::Model.simulate", f"{M}::Model.update", f"{M}::Model._recursive_inputs", f"{M}::Model._build_simulation_graph", f"{N}::Dist.init_dist", f"{N}::Value.value.fset"],
           assumptions=[f"graph shape '{shape}' (values, functions, distributions arbitrary); value shapes rank 1 with scalar batch/event shape", "A-RNG: split yields distinct children",
                        "T: tfp_dist.sample(shape, seed) draws from the distribution it was initialised with"])
-    def u(ip, shape=shape, auto_update=auto_update, skip=skip):
+    def u(ip, shape=shape, auto_update=auto_update, skip=skip, copy=copy):
         """every non-skipped distributed variable is re-drawn from its distribution initialised at the NEWLY drawn values of its
         ancestors (direct parents and parents reached through cached / transient calculations), with the sample shape of its current
         value and its own child of the seed; skipped variables keep their value; a subsequent update leaves nothing outdated."""
@@ -25,7 +25,18 @@ def sim_unit(shape, auto_update, skip):
         install_graph_models(ip)
         install_sim_models(ip)
         g = G(ip)
-        model = g.build(*SHAPES[shape](g))
+        roots = SHAPES[shape](g)
+        model = g.build(*roots, **({"copy": True} if copy else {}))  # copy=True: the model owns COPIES; the user's variables stay outside
+        originals = {}
+        if copy:
+            todo, seen_ = list(roots), []
+            while todo:
+                v_ = todo.pop()
+                if any(v_ is x for x in seen_) or v_.clsname != "Var":
+                    continue
+                seen_.append(v_)
+                originals[ip.getattr(v_, "name")] = (v_, ip.to_U(ip.getattr(v_, "value")))
+                todo.extend(ip.call(method(ip, v_, "all_input_vars"), [], {}))
         ip.setattr(model, "auto_update", auto_update)
         seed = z3.Const("seed", U)
         ip.call(method(ip, model, "simulate"), [seed], {"skip": list(skip)})
@@ -63,6 +74,9 @@ def sim_unit(shape, auto_update, skip):
             (kept if "b" in skip else lambda n_: drawn(n_, "Pb"))("b")
             (kept if "c" in skip else lambda n_: drawn(n_, "Pc"))("c")
             (kept if "y" in skip else lambda n_: drawn(n_, "Lik", val("b"), val("c")))("y")
+        if copy:
+            c.oblige("users_original_variables_untouched", all(ip.to_U(ip.getattr(v_, "value")).eq(v0) and ip.getattr(v_, "model") is None for v_, v0 in originals.values()) and len(originals) >= 2)
+            c.oblige("model_owns_copies", all(V[n_] is not originals[n_][0] for n_ in originals if n_ in V))
         c.oblige("distinct_seed_children", len(set(used)) == len(used))
         # "the result is determined by the seed": which child of the seed a variable gets must not depend on an unspecified iteration order
         first = _ASSIGNMENT.setdefault(tag, list(used))
@@ -77,6 +91,8 @@ def sim_unit(shape, auto_update, skip):
 for _s in SHAPES:
     for _a in (True, False):
         sim_unit(_s, _a, ())
+sim_unit("hier", True, (), copy=True)
+sim_unit("flat", False, (), copy=True)
 sim_unit("hier", False, ("mu",))
 sim_unit("hier", True, ("tau",))
 sim_unit("flat", False, ("y",))
@@ -84,7 +100,7 @@ sim_unit("hier", False, ("mu_log_prob",))
 sim_unit("hier", True, ("y_var_value",))
 
 
-@unit("C17.sample_shape", "C17", [f"{M}::Model.simulate"], assumptions=["value of rank 3; event rank 0/1, batch rank 0/1 (the four combinations)"])
+@unit("C17.sample_shape", "C17", [f"{M}::Model.simulate"], assumptions=["value of rank 3; event rank 0/1, batch rank 0/1 (the four combinations), and per_obs=False for event rank 0"])
 def u_sample_shape(ip):
     """the sample shape requested from the distribution is the leading part of the current value's shape that is neither batch nor
     event shape: value_shape[: rank(value) - rank(batch) - rank(event)] - so drawn values keep the shape of the current value."""
@@ -94,20 +110,35 @@ def u_sample_shape(ip):
     dims = tuple(c.fresh(f"n{i}", Int) for i in range(3))
     ip.models["jax.numpy.asarray"] = lambda ip_, x, *a, **k: PyObj("arr", shape=dims, value=x)
     ip.models["jax.random.split"] = lambda ip_, key, num=2: [ip_.uf("split", ip_.to_U(key), z3.IntVal(i)) for i in range(ip_.conc_int(num))]
-    for ev, ba in (((), ()), ((dims[2],), ()), ((), (dims[2],)), ((dims[2],), (dims[1],))):
+    for ev, ba, per_obs in [(e_, b_, True) for e_, b_ in (((), ()), ((dims[2],), ()), ((), (dims[2],)), ((dims[2],), (dims[1],)))] + [((), (), False), ((), (dims[2],), False)]:
         g = G(ip)
         got = {}
+
+        def np_shape(ip_, x, ev=ev):
+            # T: a log-density array has the value's shape without the event dimensions; its sum (per_obs=False) is a scalar
+            if isinstance(x, PyObj) and "shape" in x.attrs:
+                return x.attrs["shape"]
+            if isinstance(x, (int, float)) or (is_z3(x) and x.sort() != U):
+                return ()
+            if is_z3(x) and "logp_S" in str(x.decl()):
+                return dims[: 3 - len(ev)]
+            raise Unsupported("jnp.shape of an opaque value")
+
+        ip.models["jax.numpy.shape"] = np_shape
 
         def fam(ip_, *a, **k):
             d = ip_.call(dist_fn("S", event_shape=ev, batch_shape=ba), list(a), k)
             d.attrs["sample"] = PyFn(lambda ip2, shape, seed=None: (got.__setitem__("shape", shape), z3.Const("drawn", U))[1], "sample")
             return d
 
-        y = g.var("y", dist=ip.call(g.Dist, [PyFn(fam, "S")], {}))
+        dnode = ip.call(g.Dist, [PyFn(fam, "S")], {})
+        if not per_obs:
+            ip.setattr(dnode, "per_obs", False)  # the stored log-density is the SUM over the observations (a scalar)
+        y = g.var("y", dist=dnode)
         model = g.build(y)
         ip.call(method(ip, model, "simulate"), [z3.Const("seed", U)], {})
         want = dims[: 3 - len(ev) - len(ba)]
-        tag = f".event{len(ev)}.batch{len(ba)}"
+        tag = f".event{len(ev)}.batch{len(ba)}" + ("" if per_obs else ".per_obs_false")
         c.oblige("sample_shape_is_leading_part" + tag, isinstance(got.get("shape"), tuple) and len(got["shape"]) == len(want) and all(a is b for a, b in zip(got["shape"], want)))
 
 
@@ -160,3 +191,35 @@ def transformed_unit(entry, auto_update):
 for _e in ("instance", "default"):
     for _a in (True, False):
         transformed_unit(_e, _a)
+
+
+def stale_entry_unit(auto_on_at_entry):
+    @unit(f"C17.stale_entry.auto_{'on' if auto_on_at_entry else 'off'}", "C17", [f"{M}::Model.simulate", f"{M}::Model.update", f"{M}::Model.auto_update.fset", f"{N}::Value.value.fset"],
+          assumptions=["graph: hyper (no distribution) -> loc = f_loc(hyper) cached -> mu ~ Pmu(loc) -> x ~ Lik(mu); hyper assigned while auto-update is off, no update before simulate()"])
+    def u(ip, auto_on_at_entry=auto_on_at_entry):
+        """simulate() may be entered with OUTDATED nodes (a value was assigned while auto-update was off; switching auto-update back on does not
+        update anything): the first simulated variable is still drawn at the CURRENT values of its ancestors, whatever the auto-update setting
+        at entry."""
+        c = ip.ctx
+        install_graph_models(ip)
+        install_sim_models(ip)
+        g = G(ip)
+        hyper = g.var("hyper")
+        loc = g.calc("f_loc", hyper, name="loc")
+        mu = g.var("mu", dist=g.dist("Pmu", loc), parameter=True)
+        x = g.var("x", dist=g.dist("Lik", mu), observed=True)
+        model = g.build(x)
+        ip.setattr(model, "auto_update", False)
+        ip.setattr(model.f["_vars"]["hyper"], "value", z3.Const("new_hyper", U))
+        if auto_on_at_entry:
+            ip.setattr(model, "auto_update", True)
+        ip.call(method(ip, model, "simulate"), [z3.Const("seed", U)], {})
+        new_mu = ip.to_U(ip.getattr(model.f["_vars"]["mu"], "value"))
+        new_x = ip.to_U(ip.getattr(model.f["_vars"]["x"], "value"))
+        c.oblige("first_variable_drawn_at_the_current_ancestor_values", new_mu.decl().name().startswith("draw_Pmu") and new_mu.arg(0).eq(ip.uf("f_loc", z3.Const("new_hyper", U))))
+        c.oblige("child_drawn_at_the_new_parent", new_x.decl().name().startswith("draw_Lik") and new_x.arg(0).eq(new_mu))
+    return u
+
+
+stale_entry_unit(True)
+stale_entry_unit(False)
